@@ -10,3 +10,4 @@ for SEED in "$@"; do
     [ $RC -ne 0 ] && echo "   ^^^ $C seed=$SEED exit=$RC"
   done
 done
+exit 0
